@@ -1,7 +1,11 @@
 import L21.Props.C13
+import L21.Props.C13Inv
 #print axioms L21.Geom.c13_rect
 #print axioms L21.Geom.c13_poly
 #print axioms L21.Geom.c13_poly_boundary
 #print axioms L21.Geom.c13_poly_vertex
 #print axioms L21.Geom.c13_poly_far
 #print axioms L21.Geom.c13_path
+#print axioms L21.Geom.c13_start_vertex
+#print axioms L21.Geom.c13_orientation
+#print axioms L21.Geom.c13_repeated_vertex
